@@ -267,7 +267,7 @@ func (s *Sim) enterBlock(fr *Frame, st *State, b, pred *ssa.BasicBlock, k cont) 
 				break
 			}
 			t := s.val(fr, st, phi.Edges[idx])
-			if v >= 2 {
+			if v >= 2 && isLoopHeader(b) {
 				if last, ok := fr.lastPhi[phi]; ok && last.Key() != t.Key() {
 					// widen loop-carried values on the second visit
 					st.counter["widen"]++
@@ -282,6 +282,16 @@ func (s *Sim) enterBlock(fr *Frame, st *State, b, pred *ssa.BasicBlock, k cont) 
 		}
 	}
 	s.simInstrs(fr, st, b, 0, k)
+}
+
+// isLoopHeader: b has an incoming back edge (a predecessor it dominates).
+func isLoopHeader(b *ssa.BasicBlock) bool {
+	for _, p := range b.Preds {
+		if b.Dominates(p) {
+			return true
+		}
+	}
+	return false
 }
 
 func (s *Sim) uid(st *State, fr *Frame, in ssa.Instruction) string {
